@@ -1,10 +1,82 @@
-(* C14 - placeholder until Proofs/ErgodicFacts.v is complete *)
-From Coq Require Import List ZArith QArith Qcanon.
-From MsmV Require Import Lib.Result Lib.QMat Model.Ergodic.
+(* C14 - Ergodicity predicates agree with the transition graph.
+   Statements only; proofs in Proofs/ErgodicFacts.v (on Proofs/QMatFacts.v). *)
+From Coq Require Import List ZArith Arith Bool QArith Qcanon.
+From MsmV Require Import Lib.Result Lib.PyList Lib.QMat Model.Ergodic Proofs.QMatFacts Proofs.ErgodicFacts.
 Import ListNotations.
+Local Open Scope nat_scope.
+
+(* an entry of the k-th power of a non-negative matrix is positive exactly when
+   the transition graph has a walk of length k *)
+Theorem pos_pow_iff_walk_thm : forall n M k i j,
+  0 < n -> wf n n M -> entries_nonneg M -> i < n -> j < n ->
+  ((0 < mget (mpow M k) i j)%Qc <-> walk (supp M) k i j).
+Proof. exact pos_pow_iff_walk. Qed.
+Print Assumptions pos_pow_iff_walk_thm.
+
+(* the executable predicate (integer-scaled square-and-multiply power) is the
+   thresholded plain power with the Wielandt exponent (n-1)^2+1 *)
+Theorem is_ergodic_unfold_thm : forall n M, 0 < n -> wf n n M ->
+  is_ergodic atol8 M = is_tmat atol8 M && all_entries (fun x => Qc_ltb atol8 x) (mpow M (wexp n)).
+Proof. exact is_ergodic_unfold. Qed.
+Print Assumptions is_ergodic_unfold_thm.
+
+(* soundness: reported ergodic => strongly connected, aperiodic, primitive *)
+Theorem ergodic_sound_thm : forall n M,
+  0 < n -> wf n n M -> entries_nonneg M -> rows_sum_one M -> is_ergodic atol8 M = true ->
+  strongly_connected (supp M) /\ aperiodic (supp M) /\ primitive (supp M).
+Proof. exact ergodic_sound. Qed.
+Print Assumptions ergodic_sound_thm.
+
+(* completeness, partial: graphs connected in the sense of the lazy closure with
+   at least one self-loop (the regime of metastable MD models) have all walks of
+   every length >= 2(n-1), and 2(n-1) <= (n-1)^2+1.  The general statement
+   (Wielandt: strongly connected and aperiodic => all walks of length (n-1)^2+1)
+   is NOT proved; it is compared on every case against the independent graph
+   algorithm graph_ergodic and exhaustively for n <= 4 in the thorough tier. *)
+Definition ergodic_complete_full : Prop := forall n G, bwf n G -> 0 < n ->
+  strongly_connected G -> aperiodic G -> forall i j, i < n -> j < n -> walk G (wexp n) i j.
+
+Theorem ergodic_complete_loop_partial : forall n G v,
+  bwf n G -> graph_connected G = true -> v < n -> bget G v v = true ->
+  forall k, 2 * (n - 1) <= k -> forall i j, i < n -> j < n -> walk G k i j.
+Proof. exact complete_with_loop. Qed.
+Print Assumptions ergodic_complete_loop_partial.
+
+Theorem wielandt_exponent_covers_loop_bound : forall n, 1 <= n -> 2 * (n - 1) <= wexp n.
+Proof. exact wexp_ge. Qed.
+Print Assumptions wielandt_exponent_covers_loop_bound.
+
+Theorem walks_monotone_thm : forall n G k, bwf n G -> 1 <= k ->
+  (forall i j, i < n -> j < n -> walk G k i j) ->
+  forall k', k <= k' -> forall i j, i < n -> j < n -> walk G k' i j.
+Proof. exact walks_monotone. Qed.
+Print Assumptions walks_monotone_thm.
+
+Theorem bpow_walk_thm : forall n G k i j, bwf n G -> i < n -> j < n ->
+  (bget (bpow G k) i j = true <-> walk G k i j).
+Proof. exact bpow_walk. Qed.
+Print Assumptions bpow_walk_thm.
+
+(* when no exact entry of the power lies in (0, 1e-8] the threshold does not decide *)
+Theorem atol_free_eq_thm : forall P : mat,
+  (forall r x, In r P -> In x r -> x = 0%Qc \/ (atol8 < x)%Qc) ->
+  all_entries (fun x => Qc_ltb atol8 x) P = all_entries (fun x => Qc_ltb 0 x) P.
+Proof. exact atol_free_eq. Qed.
+Print Assumptions atol_free_eq_thm.
+
+Theorem ergodic_implies_fuzzy_thm : forall M, is_ergodic atol8 M = true -> is_fuzzy_ergodic atol8 M = true.
+Proof. exact ergodic_implies_fuzzy. Qed.
+Print Assumptions ergodic_implies_fuzzy_thm.
+
+Theorem nonstochastic_neither_thm : forall M, is_tmat atol8 M = false ->
+  is_ergodic atol8 M = false /\ is_fuzzy_ergodic atol8 M = false /\ ergodic_mask atol8 M = Err ValueError.
+Proof. exact nonstochastic_neither. Qed.
+Print Assumptions nonstochastic_neither_thm.
+
 Example ergodic_example :
-  let M := mat_of_Z [[0; 1]; [1; 1]]%Z in
-  is_ergodic atol8 (row_normalize M) = true /\ graph_ergodic (supp (row_normalize M)) = true
-  /\ is_ergodic atol8 (row_normalize (mat_of_Z [[0; 1]; [1; 0]]%Z)) = false.
+  let M := row_normalize (mat_of_Z [[0; 1]; [1; 1]]%Z) in
+  is_ergodic atol8 M = true /\ graph_ergodic (supp M) = true
+  /\ is_ergodic atol8 (row_normalize (mat_of_Z [[0; 1]; [1; 0]]%Z)) = false
+  /\ ergodic_mask atol8 (row_normalize (mat_of_Z [[1; 1; 0]; [1; 1; 0]; [0; 0; 1]]%Z)) = Ok [true; true; false].
 Proof. vm_compute. repeat split; reflexivity. Qed.
 Print Assumptions ergodic_example.
